@@ -76,6 +76,10 @@ def run(ctx: Ctx) -> None:
         ok = not bad and norm(kwarg(cfgs[0], "client_side")) == "False"
     ctx.check("C05.R7", f"{M2}:H2Protocol.__init__", "H2Configuration(client_side=False, normalisation and validation left on)", ok, f"h2 configuration changes {bad}", cfgs[0] if cfgs else h2i)
 
+    from . import c17
+
+    c17.run(Alias(ctx, "C05.R8", "WSGI adapter: an application that raises does not get its response completed by the adapter (C17.R9), and its iterable is closed (C17.R3)", only={"C17.R9", "C17.R3"}))
+
     ctx.assume("not decided: the bytes the client sees and when; that sibling streams keep working (only that nothing escapes into their shared task group, see C04)")
     from . import typestate_rules
 
